@@ -391,6 +391,15 @@ func foundLookupValue(fn *ssa.Function, v ssa.Value, b *ssa.BasicBlock) *ssa.Loo
 
 // edgeReachesDiag: some block that is only reached over the edge from -> from.Succs[succ] records a diagnostic.
 func edgeReachesDiag(from *ssa.BasicBlock, succ int) bool {
+	if theWorld != nil {
+		// ... or returns the complaint that every caller records when it is not empty
+		for _, bb := range theWorld.diagnosticBlocks(from.Parent()) {
+			if edgeDominates(from, succ, bb) {
+				return true
+			}
+		}
+		return false
+	}
 	for _, bb := range from.Parent().Blocks {
 		if !edgeDominates(from, succ, bb) {
 			continue
